@@ -1,17 +1,26 @@
 (* Properties/C06.v — Emitted messages round-trip and match an independent codec. *)
-From Storrent Require Import Base.Bytes Base.Bencode Model.Wire Model.WireSpec Proof.WireSpec.
+From Storrent Require Import Base.Bytes Base.Bencode Model.Wire Model.WireSpec Proof.WireSpec Proof.BencodeRT Proof.WireExt.
 Open Scope N_scope.
 
-(* Every core message (BEP 3/5/6), bitfield, piece and lt_donthave, with every field
-   value in range, written by the independent encoder, is read back by the model of
-   protocol.Read as the same message, consuming exactly its bytes, whatever follows.
-   PARTIAL: [fixed_width] excludes the three bencoded extension messages (extended
-   handshake, ut_metadata, ut_pex); for those the same statement is checked by the
-   correspondence on generated messages (Check/WireSpecCheck.v), not yet proved. *)
-Theorem c06_roundtrip_partial : forall m, fixed_width m = true ->
+(* Every message of the protocol with every field in range ([emit_ok]: the core messages of
+   BEP 3/5/6, bitfield, piece, lt_donthave and upload_only; the extended handshake with any subset
+   of its optional keys, an "m" dictionary with sorted distinct keys, addresses of 4 / 16 bytes;
+   ut_metadata requests, data and rejects; ut_pex with any mix of IPv4 and IPv6 peers added and
+   dropped; unknown message and extension ids), written by the independent encoder — the
+   bencoded ones through the canonical bencoder — is read back by the model of protocol.Read
+   (and of zeebo/bencode) as the same message up to [norm] (peer lists come back IPv4 first, the
+   flags of dropped peers are not transmitted), consuming exactly its bytes, whatever follows. *)
+Theorem c06_roundtrip : forall m, emit_ok m ->
   forall rest, exists a, decode (encode_spec m ++ rest) = DMsg (norm m) (len (encode_spec m)) a.
-Proof. exact rt_fixed. Qed.
-Print Assumptions c06_roundtrip_partial.
+Proof. exact rt_all. Qed.
+Print Assumptions c06_roundtrip.
+
+(* the canonical bencoder is read back by the model of the bencode library: a dictionary of
+   entries that are each read back, whatever follows it *)
+Theorem c06_bencode_dict : forall f es rest, Forall (good_entry f) es -> (length es < f)%nat ->
+  bparse (S f) (benc_d (map ekv es) ++ rest) = BOk (BDict (map evv es)) rest (ecost es 0).
+Proof. exact bparse_dict. Qed.
+Print Assumptions c06_bencode_dict.
 
 (* A concatenation of messages that round-trip individually decodes, as one byte
    stream, to the same sequence; the model's stream decoder is a function of the
@@ -28,3 +37,9 @@ Theorem c06_stream_whole : forall ms, Forall rt ms ->
   decode_stream (S (length w)) w = (map norm ms, None).
 Proof. exact decode_stream_whole. Qed.
 Print Assumptions c06_stream_whole.
+
+(* ... and so for every sequence of protocol messages *)
+Theorem c06_stream_all : forall ms, Forall emit_ok ms ->
+  let w := concat (map encode_spec ms) in decode_stream (S (length w)) w = (map norm ms, None).
+Proof. exact stream_all. Qed.
+Print Assumptions c06_stream_all.
